@@ -3,7 +3,7 @@
 //@harness c10_char_starts unwind=9 strength=bounded bound="buffers of <= 6 arbitrary bytes" timeout=600 body=body_starts
 //@harness c10_maxwidth_write unwind=9 strength=bounded bound="one write of <= 6 arbitrary bytes, any remaining budget, inner writer accepting any prefix or failing" timeout=900 body=body_maxw
 //@harness c10_leftalign_write unwind=9 strength=bounded bound="one write of <= 5 arbitrary bytes, to_fill <= 7, inner writer accepting any prefix" timeout=600 body=body_left
-//@harness c10_rightalign_write unwind=9 strength=bounded bound="two writes of <= 3 bytes with a style change in between, to_fill <= 7" timeout=900 body=body_right
+//@harness c10_rightalign_write unwind=9 strength=bounded bound="two writes of <= 3 bytes with a style change in between, to_fill <= 7" timeout=2400 body=body_right
 //@harness c18_width_writers_forward_style unwind=4 strength=complete bound="any remaining budget / padding owed (full usize domain); loop-free" timeout=600 body=body_style
 //@harness c10_left_over_max_two_writes unwind=9 strength=bounded bound="valid UTF-8 text of <= 2 scalar values drawn from {a, e-acute, euro, U+1F600} split into two writes at a character boundary; M <= 3, m <= 4" timeout=1500 body=body_left_max
 // Width machinery below `finish`: MaxWidthWriter cuts at a lead byte and then acts as a sink; the align writers count
